@@ -333,11 +333,16 @@ class RenderIterator:
                 raise arg_value_error_range("offset", offset, f"whence={whence.name}")
             renderable_data.update(frame_offset=offset, seek_whence=whence)
         else:
+            next_frame = renderable_data.frame_offset
+            if next_frame == frame_count and self.loop != 1:
+                # Between two loops; the next frame is the first of the next loop
+                next_frame = 0
+
             frame = (
                 offset
                 if whence is Seek.START
                 else (
-                    renderable_data.frame_offset + offset
+                    next_frame + offset
                     if whence is Seek.CURRENT
                     else frame_count + offset - 1
                 )
@@ -349,7 +354,7 @@ class RenderIterator:
                     (
                         f"whence={whence.name}, frame_count={frame_count}"
                         + (
-                            f", next={renderable_data.frame_offset}"
+                            f", next={next_frame}"
                             if whence is Seek.CURRENT
                             else ""
                         )
